@@ -34,7 +34,7 @@ RULE = (
     "(document text, position, path); non-trivial = the planted line is beyond line 1 and at least one "
     "call-site frame lies in a template."
 )
-RULE += ' added since: positions for-iterable, loop body, elif/while tests, <%call expr>, tag attribute, include file expression, functions of a first and second <%! %> block (also through a namespace), relay back through caller.body(); warnings from literal comparisons, invalid escapes in for iterables, def bodies and module blocks; relative module_directory / module_filename; alternating frames of two templates. module directory reached through a symbolic link.'
+RULE += ' added since: positions for-iterable, loop body, elif/while tests, <%call expr>, tag attribute, include file expression, functions of a first and second <%! %> block (also through a namespace), relay back through caller.body(); warnings from literal comparisons, invalid escapes in for iterables, def bodies and module blocks; relative module_directory / module_filename; alternating frames of two templates. module directory reached through a symbolic link. the format_exceptions page through render() with an output encoding.'
 ASSUMPTIONS = [
     "generated glue frames that correspond to no construct (def stubs, cache wrappers) are only required to carry "
     "the right template identity and a line inside the source",
@@ -470,6 +470,14 @@ def run_traceback_case(r, pos, path, nl, res):
                 res.count("format_exceptions_pages")
                 if needle2 not in strip_html(page) or "Planted" not in page:
                     res.violate("format-exceptions-page", "%s\nformat_exceptions output lacks %r" % (what, needle2), replay_case=rc)
+                # the same page through render() with an output encoding (bytes): it names the same file and line
+                lk3, ids3, put3 = make_lookup(spec, path, d, format_exceptions=True, output_encoding="utf-8")
+                put3()
+                pageb = lk3.get_template(spec["top"]).render()
+                pageb = pageb.decode("utf-8", "replace") if isinstance(pageb, bytes) else "<<render() returned %s>>" % type(pageb).__name__
+                res.count("format_exceptions_pages")
+                if needle2 not in strip_html(pageb) or "Planted" not in pageb:
+                    res.violate("format-exceptions-page", "%s\nformat_exceptions output of render() (bytes) lacks %r: %r" % (what, needle2, strip_html(pageb)[:200]), replay_case=rc)
             except Exception as e:
                 res.violate("format-exceptions-raises", "%s\n%s: %s" % (what, type(e).__name__, e), replay_case=rc)
         if len({u for u, _ in spec["chain"]}) > 1:
